@@ -1,7 +1,408 @@
 /-
-Helper lemmas (agent model) — see the Props file that imports this module.
+Helper lemmas (agent model) for C20 (the agent is a pure function of its inputs): every operation of
+the model commutes with a shift of all instants, two agents driven by one interleaved history do not
+interact, a call touches only the transaction it names or serves, and stored instants are inputs.
 -/
-import StunVerif.Lemmas.AgentMap
+import StunVerif.Lemmas.AgentPeers
 namespace StunVerif.Agent
+
+/-! ### `reqPoll` commutes with the shift -/
+
+/-- the answer of a request's poll, shifted -/
+def shiftRet (d : Nat) : ReqRet → ReqRet
+  | .waitUntil t => .waitUntil (t + d)
+  | x => x
+
+theorem reqPoll_shift (d : Nat) (r : Req) (now : Time) :
+    reqPoll (shiftReq d r) (now + d) = (shiftReq d (reqPoll r now).1, shiftRet d (reqPoll r now).2) := by
+  rcases r with ⟨hc, b, to, ts, lr, rc, sc, ti, ls⟩
+  rw [reqPoll_def, reqPoll_def]
+  cases ls with
+  | none => cases rc <;> cases sc <;> rfl
+  | some h =>
+    have e : ∀ m, (h + d + m > now + d) = (h + m > now) := by
+      intro m; rw [Nat.add_right_comm h d m]; exact propext (Nat.add_lt_add_iff_right)
+    simp only [shiftReq, Option.map_some, e]
+    cases rc
+    · simp only [Bool.false_eq_true, if_false]
+      split
+      · split
+        · simp [shiftRet, Nat.add_right_comm]
+        · rfl
+      · split
+        · simp [shiftRet, Nat.add_right_comm]
+        · cases sc <;> rfl
+    · rfl
+
+/-! ### the shift map commutes with the association-list operations -/
+
+/-- the shift of one stored entry -/
+def shiftEntry (d : Nat) (p : Nat × Req) : Nat × Req := (p.1, shiftReq d p.2)
+
+theorem shiftState_out (d : Nat) (s : State) : (shiftState d s).out = s.out.map (shiftEntry d) := rfl
+
+theorem lookup_shift (d : Nat) (out : List (Nat × Req)) (t : Nat) :
+    lookup (out.map (shiftEntry d)) t = (lookup out t).map (shiftReq d) := by
+  induction out with
+  | nil => rfl
+  | cons p out ih =>
+    rw [List.map_cons, lookup_cons, lookup_cons, ih]
+    by_cases h : p.1 = t <;> simp [shiftEntry, h]
+
+theorem remove_shift (d : Nat) (out : List (Nat × Req)) (t : Nat) :
+    remove (out.map (shiftEntry d)) t = (remove out t).map (shiftEntry d) := by
+  induction out with
+  | nil => rfl
+  | cons p out ih =>
+    rw [List.map_cons, remove_cons, remove_cons, ih]
+    by_cases h : p.1 = t <;> simp [shiftEntry, h]
+
+theorem insert_shift (d : Nat) (out : List (Nat × Req)) (t : Nat) (r : Req) :
+    insert (out.map (shiftEntry d)) t (shiftReq d r) = (insert out t r).map (shiftEntry d) := by
+  unfold insert
+  rw [remove_shift]
+  rfl
+
+theorem update_shift (d : Nat) (out : List (Nat × Req)) (t : Nat) (f f' : Req → Req)
+    (hf : ∀ r, f' (shiftReq d r) = shiftReq d (f r)) :
+    update (out.map (shiftEntry d)) t f' = (update out t f).map (shiftEntry d) := by
+  induction out with
+  | nil => rfl
+  | cons p out ih =>
+    rw [List.map_cons, update_cons, update_cons, List.map_cons, ih]
+    by_cases h : p.1 = t <;> simp [shiftEntry, h, hf]
+
+/-! ### `ready`, `minWait`, `chosen_peers` -/
+
+/-- the filter of `ready` -/
+def isReady (now : Time) (p : Nat × Req) : Bool :=
+  match (reqPoll p.2 now).2 with
+  | .waitUntil _ => false
+  | _ => true
+
+/-- the fold of `minWait` -/
+def waitStep (now : Time) (acc : Option Time) (p : Nat × Req) : Option Time :=
+  match (reqPoll p.2 now).2 with
+  | .waitUntil t => (match acc with
+    | none => some t
+    | some a => if t < a then some t else some a)
+  | _ => acc
+
+theorem ready_eq (s : State) (now : Time) : ready s now = (s.out.filter (isReady now)).map (·.1) := rfl
+
+theorem minWait_eq_pure (s : State) (now : Time) : minWait s now = s.out.foldl (waitStep now) none := rfl
+
+theorem isReady_shift (d : Nat) (now : Time) (p : Nat × Req) :
+    isReady (now + d) (shiftEntry d p) = isReady now p := by
+  simp only [isReady, shiftEntry, reqPoll_shift]
+  cases (reqPoll p.2 now).2 <;> rfl
+
+theorem waitStep_shift (d : Nat) (now : Time) (acc : Option Time) (p : Nat × Req) :
+    waitStep (now + d) (acc.map (· + d)) (shiftEntry d p) = (waitStep now acc p).map (· + d) := by
+  simp only [waitStep, shiftEntry, reqPoll_shift]
+  cases (reqPoll p.2 now).2 with
+  | waitUntil t =>
+    cases acc with
+    | none => rfl
+    | some a =>
+      simp only [shiftRet, Option.map_some, Nat.add_lt_add_iff_right]
+      split <;> rfl
+  | _ => rfl
+
+theorem ready_shift (d : Nat) (s : State) (now : Time) :
+    ready (shiftState d s) (now + d) = ready s now := by
+  rw [ready_eq, ready_eq, shiftState_out]
+  induction s.out with
+  | nil => rfl
+  | cons p out ih =>
+    rw [List.map_cons, List.filter_cons, List.filter_cons, isReady_shift]
+    split
+    · rw [List.map_cons, List.map_cons, ih]; rfl
+    · exact ih
+
+theorem minWait_shift (d : Nat) (s : State) (now : Time) :
+    minWait (shiftState d s) (now + d) = (minWait s now).map (· + d) := by
+  rw [minWait_eq_pure, minWait_eq_pure, shiftState_out]
+  suffices h : ∀ acc : Option Time,
+      List.foldl (waitStep (now + d)) (acc.map (· + d)) (s.out.map (shiftEntry d)) =
+        (List.foldl (waitStep now) acc s.out).map (· + d) from h none
+  induction s.out with
+  | nil => intro acc; rfl
+  | cons p out ih =>
+    intro acc
+    rw [List.map_cons, List.foldl_cons, List.foldl_cons, waitStep_shift, ih]
+
+theorem chosen_shift (d : Nat) (s : State) (now : Time) (pick : Option Nat) :
+    chosen_peers (shiftState d s) (now + d) pick = chosen_peers s now pick := by
+  unfold chosen_peers
+  rw [ready_shift]
+
+/-! ### `step` commutes with the shift -/
+
+theorem validatedPeer_shift (d : Nat) (s : State) (a : SockAddr) :
+    validatedPeer (shiftState d s) a = shiftState d (validatedPeer s a) := by
+  by_cases h : s.validated.contains a = true
+  · have h' : (shiftState d s).validated.contains a = true := h
+    rw [validatedPeer, validatedPeer, if_pos h, if_pos h']
+  · have h' : ¬ (shiftState d s).validated.contains a = true := h
+    rw [validatedPeer, validatedPeer, if_neg h, if_neg h']
+    rfl
+
+theorem shiftState_with_out (d : Nat) (s : State) (out : List (Nat × Req)) :
+    shiftState d { s with out := out } = { shiftState d s with out := out.map (shiftEntry d) } := rfl
+
+theorem shiftState_update (d : Nat) (s : State) (tid : Nat) (f : Req → Req)
+    (hf : ∀ r, f (shiftReq d r) = shiftReq d (f r)) :
+    ({ shiftState d s with out := update (shiftState d s).out tid f } : State) =
+      shiftState d { s with out := update s.out tid f } := by
+  have e : update (shiftState d s).out tid f = (update s.out tid f).map (shiftEntry d) := by
+    rw [shiftState_out, update_shift d s.out tid f f hf]
+  rw [e]
+  rfl
+
+theorem serve_shift (d : Nat) (s : State) (tid : Nat) (r' : Req) (ret : ReqRet) :
+    serve_peers (shiftState d s) tid (shiftReq d r', shiftRet d ret) =
+      (shiftState d (serve_peers s tid (r', ret)).1, shiftOut d (serve_peers s tid (r', ret)).2) := by
+  cases ret with
+  | waitUntil t => rfl
+  | sendData =>
+    simp only [serve_peers, shiftRet, shiftState_with_out, shiftOut]
+    rw [← update_shift d s.out tid (fun _ => r') (fun _ => shiftReq d r') (fun _ => rfl)]
+    rfl
+  | timedOut =>
+    simp only [serve_peers, shiftRet, shiftState_with_out, shiftOut]
+    rw [← remove_shift]
+    rfl
+  | cancelled =>
+    simp only [serve_peers, shiftRet, shiftState_with_out, shiftOut]
+    rw [← remove_shift]
+    rfl
+
+theorem agentPoll_shift (d : Nat) (s : State) (now : Time) (pick : Option Nat) :
+    agentPoll (shiftState d s) (now + d) pick =
+      (shiftState d (agentPoll s now pick).1, shiftOut d (agentPoll s now pick).2) := by
+  rw [agentPoll_eq_peers, agentPoll_eq_peers, chosen_shift, minWait_shift]
+  cases chosen_peers s now pick with
+  | none =>
+    cases minWait s now with
+    | none => simp only [Option.map_none, Option.getD_none, shiftOut, Nat.add_right_comm now d]
+    | some t => rfl
+  | some tid =>
+    simp only [shiftState_out, lookup_shift]
+    cases lookup s.out tid with
+    | none => simp only [Option.map_none, shiftOut, Nat.add_right_comm now d]
+    | some r =>
+      simp only [Option.map_some, reqPoll_shift]
+      exact serve_shift d s tid _ _
+
+theorem step_shift (d : Nat) (s : State) (op : Op) :
+    step (shiftState d s) (shiftOp d op) = (shiftState d (step s op).1, shiftOut d (step s op).2) := by
+  cases op with
+  | sendReq tid b hc to now =>
+    simp only [shiftOp]
+    rw [step_sendReq, step_sendReq, shiftState_out, lookup_shift, Option.isSome_map]
+    split
+    · rfl
+    · simp only [shiftState_with_out, shiftOut]
+      rw [← insert_shift]
+      rfl
+  | sendOther b to => rfl
+  | handle m src =>
+    have hl' : lookup (shiftState d s).out m.tid = (lookup s.out m.tid).map (shiftReq d) := by
+      rw [shiftState_out, lookup_shift]
+    have hk' : (shiftState d s).remoteCreds = s.remoteCreds := rfl
+    simp only [shiftOp, step, hl', hk']
+    have hrem : remove (shiftState d s).out m.tid = (remove s.out m.tid).map (shiftEntry d) := by
+      rw [shiftState_out, remove_shift]
+    have hins : ∀ r, insert (remove (shiftState d s).out m.tid) m.tid (shiftReq d r) =
+        (insert (remove s.out m.tid) m.tid r).map (shiftEntry d) := by
+      intro r; rw [hrem, insert_shift]
+    by_cases hr : m.isResponse = true
+    · simp only [hr, if_true]
+      cases lookup s.out m.tid with
+      | none => rfl
+      | some r =>
+        simp only [Option.map_some]
+        have hc : (shiftReq d r).hadCreds = r.hadCreds := rfl
+        rw [hc]
+        by_cases hcr : r.hadCreds = true
+        · simp only [hcr, if_true]
+          cases s.remoteCreds with
+          | none =>
+            simp only []
+            rw [hins]
+            rfl
+          | some k =>
+            simp only []
+            by_cases hv : m.validUnder k = true
+            · simp only [hv, if_true]
+              rw [hrem]
+              exact congrArg (·, Out.response)
+                (validatedPeer_shift d { s with remoteCreds := some k, out := remove s.out m.tid } src)
+            · simp only [hv, Bool.false_eq_true, if_false]
+              rw [hins]
+              rfl
+        · simp only [hcr, Bool.false_eq_true, if_false]
+          rw [hrem]
+          exact congrArg (·, Out.response)
+            (validatedPeer_shift d { s with out := remove s.out m.tid } src)
+    · simp only [hr, Bool.false_eq_true, if_false]
+      exact congrArg (·, Out.incoming) (validatedPeer_shift d _ src)
+  | poll now pick => exact agentPoll_shift d s now pick
+  | cancel tid =>
+    refine Prod.ext ?_ rfl
+    exact shiftState_update d s tid _ (fun _ => rfl)
+  | cancelRtx tid =>
+    refine Prod.ext ?_ rfl
+    exact shiftState_update d s tid _ (fun _ => rfl)
+  | configure tid rto n last =>
+    refine Prod.ext ?_ rfl
+    exact shiftState_update d s tid (fun r => configureReq s.transport r rto n last)
+      (fun r => by cases s.transport <;> rfl)
+  | setRemoteCreds k => rfl
+
+theorem shiftState_init (d : Nat) (tr : Transport) (loc : SockAddr) :
+    shiftState d (State.init tr loc) = State.init tr loc := rfl
+
+/-- whole histories, from any state -/
+theorem trace_shift (d : Nat) (s : State) (ops : List Op) :
+    (trace (shiftState d s) (ops.map (shiftOp d))).map (·.2) =
+      ((trace s ops).map (·.2)).map (shiftOut d) := by
+  induction ops generalizing s with
+  | nil => rfl
+  | cons op ops ih =>
+    rw [List.map_cons, trace_cons_peers, trace_cons_peers, step_shift]
+    simp only [List.map_cons]
+    rw [ih]
+
+/-! ### two agents -/
+
+theorem run2_nil (ss : State × State) : run2 ss [] = (ss, []) := by
+  rcases ss with ⟨s1, s2⟩; rfl
+
+theorem run2_cons_true (s1 s2 : State) (op : Op) (ops : List Op2) :
+    run2 (s1, s2) ((true, op) :: ops) =
+      ((run2 ((step s1 op).1, s2) ops).1, (true, (step s1 op).2) :: (run2 ((step s1 op).1, s2) ops).2) := rfl
+
+theorem run2_cons_false (s1 s2 : State) (op : Op) (ops : List Op2) :
+    run2 (s1, s2) ((false, op) :: ops) =
+      ((run2 (s1, (step s2 op).1) ops).1, (false, (step s2 op).2) :: (run2 (s1, (step s2 op).1) ops).2) := rfl
+
+theorem run2_independent (s1 s2 : State) (ops : List Op2) :
+    (run2 (s1, s2) ops).1 = (after s1 ((ops.filter (·.1)).map (·.2)), after s2 ((ops.filter (!·.1)).map (·.2))) ∧
+    ((run2 (s1, s2) ops).2.filter (·.1)).map (·.2) = (trace s1 ((ops.filter (·.1)).map (·.2))).map (·.2) ∧
+    ((run2 (s1, s2) ops).2.filter (!·.1)).map (·.2) = (trace s2 ((ops.filter (!·.1)).map (·.2))).map (·.2) := by
+  induction ops generalizing s1 s2 with
+  | nil => exact ⟨rfl, rfl, rfl⟩
+  | cons p ops ih =>
+    rcases p with ⟨w, op⟩
+    cases w with
+    | true =>
+      obtain ⟨h1, h2, h3⟩ := ih (step s1 op).1 s2
+      rw [run2_cons_true]
+      simp only [List.filter_cons, Bool.not_true, Bool.false_eq_true, if_false, if_true, List.map_cons,
+        after_cons, trace_cons_peers]
+      exact ⟨h1, by rw [h2], h3⟩
+    | false =>
+      obtain ⟨h1, h2, h3⟩ := ih s1 (step s2 op).1
+      rw [run2_cons_false]
+      simp only [List.filter_cons, Bool.not_false, Bool.false_eq_true, if_false, if_true, List.map_cons,
+        after_cons, trace_cons_peers]
+      exact ⟨h1, h2, by rw [h3]⟩
+
+/-! ### a call touches only the transaction it names or serves -/
+
+/-- `tid` is neither named by the call nor served by it (same text as the hypothesis of
+    `C20.no_leak`) -/
+def Untouched (op : Op) (o : Out) (tid : Nat) : Prop :=
+  match op, o with
+  | .sendReq t _ _ _ _, _ => t ≠ tid
+  | .poll _ _, .transmit (some t) _ => t ≠ tid
+  | .poll _ _, .timedOut t => t ≠ tid
+  | .poll _ _, .cancelled t => t ≠ tid
+  | .poll _ _, _ => True
+  | .handle m _, _ => m.tid ≠ tid
+  | .cancel t, _ => t ≠ tid
+  | .cancelRtx t, _ => t ≠ tid
+  | .configure t _ _ _, _ => t ≠ tid
+  | _, _ => True
+
+theorem step_untouched (s : State) (op : Op) (tid : Nat) (hnot : Untouched op (step s op).2 tid) :
+    lookup (step s op).1.out tid = lookup s.out tid := by
+  cases op with
+  | sendReq t b hc to now =>
+    have ht : tid ≠ t := fun e => hnot e.symm
+    rw [step_sendReq]
+    split
+    · rfl
+    · exact lookup_insert_ne _ _ _ _ ht
+  | sendOther b to => rfl
+  | handle m src =>
+    have ht : tid ≠ m.tid := fun e => hnot e.symm
+    simp only [step]
+    split
+    · split
+      · rfl
+      · split
+        · split
+          · split
+            · rw [validatedPeer_out_peers]; exact lookup_remove_ne _ _ _ ht
+            · exact (lookup_insert_ne _ _ _ _ ht).trans (lookup_remove_ne _ _ _ ht)
+          · exact (lookup_insert_ne _ _ _ _ ht).trans (lookup_remove_ne _ _ _ ht)
+        · rw [validatedPeer_out_peers]; exact lookup_remove_ne _ _ _ ht
+    · rw [validatedPeer_out_peers]
+  | poll now pick =>
+    have e : step s (.poll now pick) = agentPoll s now pick := rfl
+    rw [e] at hnot ⊢
+    rcases agentPoll_cases_peers s now pick with ⟨t', hp⟩ | ⟨t, r, hl, _, hp⟩ | ⟨t, r, hl, _, hp⟩ |
+      ⟨t, r, hl, _, hp⟩
+    · rw [hp]
+    · rw [hp] at hnot ⊢
+      have ht : tid ≠ t := fun e => hnot e.symm
+      dsimp only
+      exact lookup_update_ne s.out _ _ _ ht
+    · rw [hp] at hnot ⊢
+      have ht : tid ≠ t := fun e => hnot e.symm
+      exact lookup_remove_ne _ _ _ ht
+    · rw [hp] at hnot ⊢
+      have ht : tid ≠ t := fun e => hnot e.symm
+      exact lookup_remove_ne _ _ _ ht
+  | cancel t =>
+    have ht : tid ≠ t := fun e => hnot e.symm
+    simp only [step]
+    exact lookup_update_ne s.out _ _ _ ht
+  | cancelRtx t =>
+    have ht : tid ≠ t := fun e => hnot e.symm
+    simp only [step]
+    exact lookup_update_ne s.out _ _ _ ht
+  | configure t rto n last =>
+    have ht : tid ≠ t := fun e => hnot e.symm
+    simp only [step]
+    exact lookup_update_ne s.out _ _ _ ht
+  | setRemoteCreds k => rfl
+
+/-! ### stored instants -/
+
+/-- the last-send instant of a request outstanding after a history was already stored for that id
+    before the history, or is the `now` of one of its send or poll calls -/
+theorem lastSend_after (s : State) (ops : List Op) (tid : Nat) (r : Req) (t : Time)
+    (h : lookup (after s ops).out tid = some r) (ht : r.lastSend = some t) :
+    (∃ r0, lookup s.out tid = some r0 ∧ r0.lastSend = some t) ∨
+    ∃ op ∈ ops, (∃ id b hc to, op = .sendReq id b hc to t) ∨ (∃ pick, op = .poll t pick) := by
+  induction ops generalizing s with
+  | nil => exact Or.inl ⟨r, h, ht⟩
+  | cons op ops ih =>
+    rw [after_cons] at h
+    rcases ih _ h with ⟨r1, hl1, ht1⟩ | ⟨op', hm, hop⟩
+    · rcases step_lookup_some s op tid r1 hl1 with ⟨r0, hl0, _, _, _, hk⟩ |
+        ⟨_, b, hc, to, now, rfl, _, rfl⟩
+      · rcases hk with hk | ⟨now, pick, rfl, hk⟩
+        · exact Or.inl ⟨r0, hl0, hk ▸ ht1⟩
+        · rw [hk] at ht1
+          cases ht1
+          exact Or.inr ⟨_, List.mem_cons_self, Or.inr ⟨pick, rfl⟩⟩
+      · cases ht1
+        exact Or.inr ⟨_, List.mem_cons_self, Or.inl ⟨tid, b, hc, to, rfl⟩⟩
+    · exact Or.inr ⟨op', List.mem_cons_of_mem _ hm, hop⟩
 
 end StunVerif.Agent
